@@ -66,6 +66,9 @@ def default_const_of(e: ast.AST) -> Optional[Token]:
         return ('e', e.value.value.id, e.value.attr, 'value')
     if isinstance(e, ast.Attribute) and isinstance(e.value, ast.Name) and e.attr.isupper() and e.value.id[:1].isupper():
         return ('e', e.value.id, e.attr, 'member')
+    # a freshly built exception object (`SolutionError(...)`), carried in a local to be raised later: truthy, not None
+    if isinstance(e, ast.Call) and isinstance(e.func, ast.Name) and e.func.id[:1].isupper() and e.func.id.endswith(('Error', 'Exception', 'Warning', 'Exit', 'Interrupt')):
+        return ('x', e.func.id)
     return None
 
 
@@ -73,6 +76,8 @@ def _truth(tok: Token) -> Optional[bool]:
     if tok[0] == 'c':
         return bool(tok[2])
     if tok[0] == 'e' and tok[3] == 'member':
+        return True
+    if tok[0] == 'x':
         return True
     return None
 
@@ -92,6 +97,11 @@ def _same(a: Token, b: Token, identity: bool) -> Optional[bool]:
     if a[0] == 'e' and b[0] == 'e':
         if a[1] == b[1] and a[3] == b[3]:
             return a[2] == b[2]  # distinct members of one enumeration are distinct (values asserted unique by the caller)
+        return None
+    if 'x' in (a[0], b[0]):
+        o = b if a[0] == 'x' else a
+        if o[0] == 'c' and (o[2] is None or isinstance(o[2], (bool, int, float, str))):
+            return False
         return None
     if 'c' in (a[0], b[0]) and 'e' in (a[0], b[0]):
         c = a if a[0] == 'c' else b
@@ -202,6 +212,11 @@ class Flags:
         c = self.const_of(e)
         if c is not None:
             return c
+        if isinstance(e, ast.Attribute) and e.attr == 'value' and isinstance(e.value, ast.Name) and e.value.id in self.idx:
+            m = s[self.idx[e.value.id]]
+            if m[0] == 'e' and m[3] == 'member':
+                return ('e', m[1], m[2], 'value')
+            return TOP
         if isinstance(e, ast.IfExp):
             t = self.ev(e.test, s)
             if t is True:
